@@ -17,3 +17,24 @@ Section Stateless.
 End Stateless.
 Arguments step {P D O}.
 Arguments run {P D O}.
+
+(* The general situation the check is about: an object MAY carry hidden state h next to its parameters p (a cache, a
+   fitted estimator kept from an earlier call, a keyword left behind by a call that raised).  `out` is what a call
+   returns (or raises), `next` what it leaves behind, `h0 p` the hidden state of a freshly built object. *)
+Section Hidden.
+  Variables P H D O : Type.
+  Variable out : P -> H -> D -> O.
+  Variable next : P -> H -> D -> H.
+  Variable h0 : P -> H.
+
+  Definition after (p : P) (ds : list D) : H := fold_left (next p) ds (h0 p).
+  (* what the probe returns when it is the call made after the history ds *)
+  Definition probe_after (p : P) (ds : list D) (probe : D) : O := out p (after p ds) probe.
+  Definition fresh (p : P) (probe : D) : O := out p (h0 p) probe.
+  (* no hidden state that some history can produce changes any output *)
+  Definition state_blind (p : P) : Prop := forall ds d, out p (after p ds) d = out p (h0 p) d.
+End Hidden.
+Arguments after {P H D}.
+Arguments probe_after {P H D O}.
+Arguments fresh {P H D O}.
+Arguments state_blind {P H D O}.
